@@ -28,7 +28,9 @@ def bounds(tier):
                                 f"datagrams per attempt (each any segment of the chain, or none), retry count <= 2",
             "targeted 3-segment faults (quick)": "length 79..117, first attempt delivers (0,2), (1,2) or (2), "
                                                  "then any <=3 deliveries in the retry",
-            "fault-free twin": f"all (start,length) with length <= {200 if q else 1024}, chain delivered in order",
+            "fault-free twin": f"all (start,length) with length <= {200 if q else 390} (up to {6 if q else 10} segments), chain "
+                               "delivered in order; longer transfers are outside the bound (the full 1024-byte transfer is "
+                               "exercised concretely by C20's handshake and C19's shipped-file units)",
             "timing": "PROTOCOL_TIMEOUT scaled to 0.25 s of virtual time (3 polls per attempt)"}
 
 
@@ -280,7 +282,7 @@ def threaded_two_transfers(sx):
 def units(tier):
     q = tier == "quick"
     yield Unit("threaded.two-transfers", threaded_two_transfers, fresh_checks=True, max_depth=2000)
-    ffmax = 200 if q else 1024
+    ffmax = 200 if q else 390
     # fault-free twin, split by segment count through the length range
     step = 39
     lo = 1
